@@ -163,9 +163,33 @@ func (r *rng) felem(m *big.Int) *big.Int {
 		b := add(r.pick(boundary(m)), small(int64(r.intn(5)-2)))
 		return mod(mul(mod(b, m), rinv), m)
 	case 4:
-		return small(int64(r.intn(1000)))
-	case 5:
+		if r.bool() {
+			return small(int64(r.intn(1000)))
+		}
 		return sub(m, small(int64(1+r.intn(1000))))
+	case 5:
+		// sparse-limb structure for shift/subtract algorithms (binary GCD, halving): the RAW representation is
+		// t or m - t with t = p * 2^j, every limb of p in {0, 1, random word}
+		limbs := (m.BitLen() + 63) / 64
+		rinv := inv(mod(pow2(64*limbs), m), m)
+		p := new(big.Int)
+		for j := 0; j < limbs; j++ {
+			p.Lsh(p, 64)
+			switch r.intn(3) {
+			case 1:
+				p.Add(p, bOne)
+			case 2:
+				p.Add(p, new(big.Int).SetUint64(r.next()>>uint(r.intn(64))))
+			}
+		}
+		t := mod(new(big.Int).Lsh(p, uint(r.intn(64))), pow2(64*limbs))
+		if r.bool() {
+			t = sub(m, t)
+		}
+		if t.Sign() < 0 || t.Cmp(m) >= 0 {
+			t = mod(t, m)
+		}
+		return mod(mul(t, rinv), m)
 	default:
 		return r.below(m)
 	}
